@@ -105,6 +105,12 @@ class _Spec(boolpath.Spec):
         v = boolpath.option_call(b, t, s.is_subject, s.closure_kind)
         if v is not None:
             return v
+        # a filter closure held in a local and called directly (`let is_match = ..; is_match(x)`)
+        if re.search(r" as std::ops::Fn(Mut|Once)?<.*>>::call(_mut|_once)?$", t["f"] or "") and t.get("clos") and b is s.b:
+            for cl in t["clos"]:
+                k = s.closure_kind(cl)
+                if k is not None:
+                    return k
         cb = s.prog.bodies.get(f)
         if cb is not None and cb.locals[0] == "bool" and cb.kind != "Closure":
             sp = {i + 1 for i, a in enumerate(t["a"]) if s.is_subject(b, a)}
@@ -290,8 +296,20 @@ def rule_cursor(ctx, R):
         cur_locals = {c for c in cursors if not isinstance(c, tuple)}
         hit = None
         for i, t in b.calls():
-            if re.search(r"<std::vec::Vec<(std::vec::Vec<u8>|\(std::vec::Vec<u8>, f64\))> as std::ops::Index<usize>>::index$", t["f"] or "") and len(t["a"]) == 2:
-                idx_roots = rules_rdb.root_locals(b, t["a"][1]) if not op_is_const(t["a"][1]) else set()
+            f_ = t["f"] or ""
+            # positional access by a cursor-derived position: element index, a sub-slice starting
+            # there (`list[pos..end]`), or an iterator advanced to it (`.skip(pos)`)
+            site = None
+            if re.search(r"<std::vec::Vec<.*> as std::ops::Index<(usize|std::ops::Range<usize>|std::ops::RangeFrom<usize>|std::ops::RangeInclusive<usize>)>>::index$", f_) and len(t["a"]) == 2:
+                site = (t["a"][0], t["a"][1])
+            elif re.search(r"Iterator>::(skip|nth)$", f_) and len(t["a"]) == 2:
+                site = (t["a"][0], t["a"][1])
+            if site is not None:
+                idx_roots = rules_rdb.root_locals(b, site[1]) if not op_is_const(site[1]) else set()
+                if not (idx_roots & cur_locals) and not op_is_const(site[1]):
+                    # a range / position built from the cursor position (`start..end`)
+                    Pq = prov.operand_origins(b, site[1], deep=True)
+                    idx_roots = {l for l in cur_locals if not isinstance(l, tuple) and any(r[0] == "agg" for r in Pq.roots) and l in _agg_operand_roots(b, Pq)}
                 if not (idx_roots & cur_locals):
                     continue
                 P = prov.operand_origins(b, t["a"][0])
@@ -466,12 +484,30 @@ def rule_order(ctx, R):
                                 if tgt is not None:
                                     zero_reg |= cfg.edge_dom_set(b, x, tgt)
         for i, t in b.calls():
-            if re.search(r"<std::vec::Vec<(std::vec::Vec<u8>|\(std::vec::Vec<u8>, f64\))> as std::ops::Index<usize>>::index$", t["f"] or "") and len(t["a"]) == 2:
-                idx_roots = rules_rdb.root_locals(b, t["a"][1]) if not op_is_const(t["a"][1]) else set()
+            f_ = t["f"] or ""
+            site = None
+            if re.search(r"<std::vec::Vec<.*> as std::ops::Index<(usize|std::ops::Range<usize>|std::ops::RangeFrom<usize>|std::ops::RangeInclusive<usize>)>>::index$", f_) and len(t["a"]) == 2:
+                site = (t["a"][0], t["a"][1])
+            elif re.search(r"Iterator>::(skip|nth)$", f_) and len(t["a"]) == 2:
+                site = (t["a"][0], t["a"][1])
+            if site is not None:
+                idx_roots = rules_rdb.root_locals(b, site[1]) if not op_is_const(site[1]) else set()
+                if not (idx_roots & cur_locals) and not op_is_const(site[1]):
+                    Pq = prov.operand_origins(b, site[1], deep=True)
+                    idx_roots = {l for l in cur_locals if not isinstance(l, tuple) and any(r[0] == "agg" for r in Pq.roots) and l in _agg_operand_roots(b, Pq)}
                 if not (idx_roots & cur_locals):
                     continue
                 n += 1
-                lroots = rules_rdb.root_locals(b, t["a"][0]) | _deref_roots(b, t["a"][0])
+                lroots = rules_rdb.root_locals(b, site[0]) | _deref_roots(b, site[0])
+                if re.search(r"Iterator>::(skip|nth)$", f_):
+                    # the list behind the iterator chain
+                    Pl = prov.operand_origins(b, site[0], deep=True)
+                    for r_ in Pl.roots:
+                        if r_[0] == "call":
+                            tt_ = b.term(r_[2])
+                            for a_ in tt_["a"][:1]:
+                                if not op_is_const(a_):
+                                    lroots |= rules_rdb.root_locals(b, a_) | _deref_roots(b, a_)
                 sorted_dom = any(cfg.dominates(b, si, i) and (sr & lroots) for si, sr in sorts)
                 in_zero = i in zero_reg
                 R.inst(b.fn, "cursor-index", {"function": nm, "at": b.loc(i), "list_sorted_on_every_path": sorted_dom, "only_when_cursor_is_zero": in_zero})
@@ -479,6 +515,19 @@ def rule_order(ctx, R):
                     R.finding(b.fn, "cursor-index:list-not-sorted-on-every-path",
                               "%s indexes the list it rebuilt from the live collection with a position derived from the client's cursor (line %d) on a path where that list has not been sorted: the cursor was a position in a differently ordered list, so elements are returned twice or never" % (nm.upper(), b.bb_line(i)), b.loc(i))
     R.floor("cursor_index_sites", n)
+
+
+def _agg_operand_roots(b, P):
+    """root locals of the operands of the aggregates (Range { start, end }) on a provenance"""
+    out = set()
+    for r in P.roots:
+        if r[0] == "agg":
+            for st in b.stmts(r[2]):
+                if st["k"] == "=" and st["r"]["k"] == "agg" and st["r"]["a"] == r[1]:
+                    for o in st["r"]["o"]:
+                        if not op_is_const(o):
+                            out |= rules_rdb.root_locals(b, o)
+    return out
 
 
 def _deref_roots(b, o):
